@@ -218,6 +218,9 @@ impl Tr {
             Stmt::Item(Item::Const(c)) => {
                 let v = crate::eval_const(self.cx, &c.expr, &self.module, &self.local_consts.borrow());
                 self.local_consts.borrow_mut().push((c.ident.to_string(), v));
+                let t = self.cx.ty_of(&c.ty, &self.module, self.self_ty.as_deref());
+                assert!(matches!(t, Ty::Int(_)), "local const {} of non-integer type", c.ident);
+                self.local_const_tys.borrow_mut().push((c.ident.to_string(), t));
                 self.block(&rest, env, expect, k)
             }
             Stmt::Item(Item::Use(u)) => {
